@@ -1,6 +1,13 @@
 """Single table of claimed checks; bin/mkmanifest renders MANIFEST.json from it."""
 
 CHECKS = {
+    "C12": dict(
+        level="translation_validation",
+        technique="TLA+ generator GenOpt (full product carrier x type x nil/present x use x position); TLA+ reference semantics MSLang (nil, get, or with lazy default, ?= as store+presence) evaluated by TLC; replay on the real binary via run and compile+execute; TLC judge CheckLang incl. source position of a failing `get`",
+        text="Exhaustive enumeration of the scenario product (1230 programs) with per-program comparison of output, failure class and the reported file:line:column of a failing `get` against the specification.",
+        note="Trusts MSLang optional semantics; class-typed optionals and fields are exercised by the C08 generator.",
+        design="5/C12",
+    ),
     "C07": dict(
         level="exploration",
         technique="TLA+ generator GenClos (state = history of closure calls / owner assignments over module-level, per-activation and nested closures; BFS = all histories to a bound, -simulate = long random ones); TLA+ reference semantics MSLang (cells, capture of free variables by cell identity, modify) evaluated by TLC; replay of every history on the real binary; TLC judge CheckLang",
